@@ -1,5 +1,6 @@
 import Aurora.Lemmas.Upload
 import Aurora.Lemmas.SpecTree
+import Aurora.Lemmas.TrieSpans
 import Aurora.Lemmas.HashTrieBuf
 import Aurora.Lemmas.ChunkPipe
 import Aurora.Lemmas.FeedPipeline
@@ -103,6 +104,56 @@ example (data : Bytes) (h : data.length < 2 ^ 64) :
   have : data.length / 262144 < 2 ^ 64 := Nat.lt_of_le_of_lt (Nat.div_le_self _ _) h
   have h2 : (2 : Nat) ^ 64 + 1 < 8192 ^ 7 := by decide
   omega
+
+/-! ## Spans: the writer fed with arbitrary leaf entries (`leaves` op of the correspondence run)
+
+The hash-trie writer only sees `(span, reference)` entries; the statements below are about ANY list of
+leaf entries, not only those of data chunks (spans `≤ C`), so they cover subtrees of `2^32` bytes and
+more.  Spans are unbounded `Nat`s in the list model: the root's span is the exact sum.  What the Go
+code holds is that sum modulo `2^64` (`uint64` addition) — the same 8 bytes `le64 span` in every chunk
+and hash, see `C02_span_bytes_are_uint64_sum`; the literal model adds modulo `2^64` as Go does. -/
+
+/-- `Sum` of the hash-trie writer after `ChainWrite` of any non-empty list of fewer than `B^7` leaf
+    entries is the bottom-up root `rootG` over them (the whole entry: span and reference). -/
+theorem C02_leaves_root_eq_rootG (B : Nat) (hB : 2 ≤ B) (es : List Entry) (hne : es ≠ [])
+    (hlen : es.length < B ^ 7) :
+    ((feedEntries cref B {} es).sumTrie cref B).2 = rootG (wrapE cref) B es.length es :=
+  leaves_root_eq_rootG cref B hB es hne hlen
+
+/-- **The root's span is the sum of the leaf spans**, for every list of leaf spans (no bound on the
+    spans), as long as the trie is not full. -/
+theorem C02_root_span_is_sum (B : Nat) (hB : 2 ≤ B) (es : List Entry) (hne : es ≠ [])
+    (hlen : es.length < B ^ 7) :
+    ∃ r, ((feedEntries cref B {} es).sumTrie cref B).2 = some r ∧ r.span = (es.map Entry.span).sum := by
+  rw [leaves_root_eq_rootG cref B hB es hne hlen]
+  obtain ⟨r, hr⟩ := rootG_enough (wrapE cref) B hB es.length es (Nat.le_refl _) hne
+  exact ⟨r, hr, rootG_span cref B (by omega) _ es r hr⟩
+
+/-- every intermediate chunk the writer produces carries the sum of its children's spans, and the bytes
+    written are those of the sum modulo `2^64` (what Go's `uint64` accumulator `sp` holds) -/
+theorem C02_span_bytes_are_uint64_sum (g : List Entry) :
+    (wrapE cref g).span = (g.map Entry.span).sum ∧
+    Aurora.Cac.le64 (wrapE cref g).span = Aurora.Cac.le64 ((g.map Entry.span).sum % 2 ^ 64) := by
+  refine ⟨rfl, ?_⟩
+  show Aurora.Cac.le64 ((g.map Entry.span).sum) = _
+  generalize (g.map Entry.span).sum = n
+  simp only [Aurora.Cac.le64]
+  apply List.map_congr_left
+  intro i hi
+  have hi8 : i < 8 := by simpa using hi
+  congr 1
+  have hdvd : 256 ^ (i + 1) ∣ 2 ^ 64 := by
+    have : (2 : Nat) ^ 64 = 256 ^ (i + 1) * 256 ^ (7 - i) := by
+      rw [← Nat.pow_add]; have : i + 1 + (7 - i) = 8 := by omega
+      rw [this]
+    exact ⟨_, this⟩
+  rw [← Nat.mod_mul_right_div_self, ← Nat.mod_mul_right_div_self (n % 2 ^ 64), ← Nat.pow_succ,
+    Nat.mod_mod_of_dvd _ hdvd]
+
+/-- non-vacuity: two leaves of `2^31` bytes under branching 2 satisfy the premises; their spans add up to `2^32` -/
+example : ([⟨2 ^ 31, [1]⟩, ⟨2 ^ 31, [2]⟩] : List Entry) ≠ [] ∧
+    ([⟨2 ^ 31, [1]⟩, ⟨2 ^ 31, [2]⟩] : List Entry).length < 2 ^ 7 ∧
+    (([⟨2 ^ 31, [1]⟩, ⟨2 ^ 31, [2]⟩] : List Entry).map Entry.span).sum = 2 ^ 32 := by decide
 
 /-! ## The literal cursor machine (`Model/HashTrieBuf.lean`) refines the list machine
 
